@@ -189,11 +189,11 @@ def rule_qm(ctx):
 
 RULES = [
     ("QM-INV", rule_qm, 40),
-    ("IDEMP", rule_canon, 5),
-    ("EFFECT", rule_effect, 17),
-    ("BUILD-SUCCESS", rule_build_success, 10),
+    ("IDEMP", rule_canon, 3),
+    ("EFFECT", rule_effect, 10),
+    ("BUILD-SUCCESS", rule_build_success, 6),
     ("BUILD-FRAME", rule_build_frame, 4),
-    ("AGREE-B", rule_agree_b, 20),
+    ("AGREE-B", rule_agree_b, 13),
 ]
 
 MANIFEST = {
